@@ -376,6 +376,9 @@ type c07Step struct {
 	// Move: instead of a report change, the replica at chain index Copy (>= 1) moves to a server that holds no copy of
 	// the vBucket yet (new cluster map revision, same number of replicas); the new copy has its own report
 	Move bool `json:"move,omitempty"`
+	// Epoch (with Move or Bump): the new map starts a new revision epoch and its revision number is LOWER than the
+	// last one of the old epoch (an unsafe failover does that)
+	Epoch bool `json:"epoch,omitempty"`
 }
 
 type c07Integ struct {
@@ -604,11 +607,16 @@ func c07ExecInteg(sc c07Integ) (string, map[string]bool) {
 				}
 			}
 			c.Unlock()
-			c.BumpRev()
+			if stp.Epoch {
+				c.BumpEpoch(1)
+				labels["new_epoch_lower_rev"] = true
+			} else {
+				c.BumpRev()
+			}
 			labels["replica_moved"] = true
 			table[vb][k] = &cp{p[0], p[1]} // the copy now listed at that place has its own (possibly empty) report
 			if !waitRestart(since) {
-				return "HARNESS: the library did not start over after a cluster map change within 5 s", labels
+				return fmt.Sprintf("vb %d: the cluster map changed (replica %d moved to another node, epoch bump=%v) but the library never started over under the new map (no re-read of the failover logs within 5 s): it keeps judging by a map that is no longer the cluster's", vb, k, stp.Epoch), labels
 			}
 			time.Sleep(3 * e.cfg.RollbackMitigation.ConfigWatchInterval)
 			since = c.Since()
@@ -638,11 +646,16 @@ func c07ExecInteg(sc c07Integ) (string, map[string]bool) {
 				threshold[vb] = r
 			}
 		} else if stp.Bump {
-			c.BumpRev()
+			if stp.Epoch {
+				c.BumpEpoch(1)
+				labels["new_epoch_lower_rev"] = true
+			} else {
+				c.BumpRev()
+			}
 			labels["config_bump"] = true
 			// the new generation starts from scratch and re-learns every copy
 			if !waitRestart(since) {
-				return "HARNESS: the library did not start over after a config revision bump within 5 s", labels
+				return fmt.Sprintf("the cluster map revision changed (epoch bump=%v) but the library never started over under the new map within 5 s", stp.Epoch), labels
 			}
 			time.Sleep(3 * e.cfg.RollbackMitigation.ConfigWatchInterval)
 			since = c.Since()
@@ -743,6 +756,9 @@ func TestC07_Integration(t *testing.T) {
 					stp.Persist = 0 // the move alone
 				}
 			}
+			if (stp.Bump || stp.Move) && rapid.IntRange(0, 2).Draw(rt, "epoch") == 0 {
+				stp.Epoch = true
+			}
 			sc.Steps = append(sc.Steps, stp)
 		}
 		if sc.Replicas >= 1 && sc.Replicas <= 2 && len(sc.Unassigned) == 0 && rapid.IntRange(0, 2).Draw(rt, "movetrap") == 0 {
@@ -760,11 +776,11 @@ func TestC07_Integration(t *testing.T) {
 				}
 			}
 			sc.Steps = append(sc.Steps, c07Step{Vb: vb, Copy: 0, UUID: 0xA1, Persist: base, Feed: int(base) + 4},
-				c07Step{Vb: vb, Copy: rapid.IntRange(1, sc.Replicas).Draw(rt, "trapcopy"), Move: true, UUID: 0xA1, Persist: base + 5, Feed: 1})
+				c07Step{Vb: vb, Copy: rapid.IntRange(1, sc.Replicas).Draw(rt, "trapcopy"), Move: true, UUID: 0xA1, Persist: base + 5, Feed: 1, Epoch: rapid.IntRange(0, 2).Draw(rt, "trapepoch") == 0})
 		}
 		journal("C07", "c07integ", sc)
 		d, labels := c07ExecInteg(sc)
-		if strings.Contains(d, "were delivered") || strings.Contains(d, "polled") || strings.Contains(d, "polling") {
+		if strings.Contains(d, "were delivered") || strings.Contains(d, "polled") || strings.Contains(d, "polling") || strings.Contains(d, "never started over") {
 			// liveness is bounded by real time: only a miss that repeats in a fresh environment is reported
 			countDiscarded("C07")
 			d, labels = c07ExecInteg(sc)
